@@ -5,6 +5,7 @@ S=$1; shift
 cd "$(dirname "$0")/.."
 R=${VERIF_REPO:-${VP_RUN_REPO:-/repo}}
 export VERIF_REPO=$R
+export VERIF_EVIDENCE_DIR=$PWD/work/seeded-evidence
 git -C $R diff --quiet || { echo "$R is dirty"; exit 2; }
 git -C $R apply $PWD/seeded/$S/patch.diff || { echo "[$S] patch does not apply"; exit 2; }
 trap "git -C $R checkout -- . ; git -C $R clean -fdq" EXIT INT TERM
